@@ -486,3 +486,63 @@ def r_rimpoint(idx, rep, modules, rule="R-RIMPOINT", floor=3):
                                                       "centre, i.e. not on the circle / rim it is returned for" % (u(n)[:70], u(v)[:40], why, u(sc)))
                         else:
                             rep.unknown(rule, key, where, "unit length of `%s` is not derivable" % u(v)[:40])
+
+
+# ---------------------------------------------------------------------------------------------------------------------- R-CONVEXWEIGHTS
+_POINT_ROWS = ("tetrahedron", "tetrahedra", "vertices", "points", "triangle", "polygon", "simplex")
+
+
+def _is_point_rows(name):
+    return name in _POINT_ROWS or name.endswith("_points") or name.endswith("_vertices") or name.endswith("vertices")
+
+
+def _sum_of(e):
+    """X when e is sum(X) / np.sum(X) / X.sum(), else None"""
+    if isinstance(e, ast.Call) and (call_name(e) or "") in ("sum", "np.sum", "math.fsum") and len(e.args) == 1 and not e.keywords:
+        return e.args[0]
+    if isinstance(e, ast.Call) and isinstance(e.func, ast.Attribute) and e.func.attr == "sum" and not e.args and not e.keywords:
+        return e.func.value
+    return None
+
+
+def r_convexweights(idx, rep, modules, rule="R-CONVEXWEIGHTS", floor=1):
+    rep.rule(rule, "a weighted mean of points `w.dot(P)` / `np.dot(w, P)` / `w @ P` (P: rows of points) with w = x / D is a point of the affine hull only when the weights "
+                   "sum to one, i.e. D is the SUM of x; with any other normaliser (a norm, a maximum, a constant) the result is scaled about the coordinate origin: it is no point "
+                   "of the body and it does not move with the scene under a translation", floor=floor)
+    for mname in modules:
+        m = idx.module(mname)
+        for f in sorted(m.functions.values(), key=lambda f: f.key):
+            for c in ast.walk(f.node):
+                w = P = None
+                if isinstance(c, ast.Call) and isinstance(c.func, ast.Attribute) and c.func.attr == "dot" and len(c.args) == 1 and u(c.func.value) not in ("np", "numpy"):
+                    w, P = c.func.value, c.args[0]
+                elif isinstance(c, ast.Call) and (call_name(c) or "") == "np.dot" and len(c.args) == 2:
+                    w, P = c.args
+                elif isinstance(c, ast.BinOp) and isinstance(c.op, ast.MatMult):
+                    w, P = c.left, c.right
+                elif isinstance(c, ast.Call) and (call_name(c) or "") == "np.average" and c.args and isinstance(c.args[0], ast.Name) and _is_point_rows(c.args[0].id) \
+                        and any(k.arg == "weights" for k in c.keywords):
+                    rep.ok(rule, "%s|weighted mean `%s`" % (f.key, u(c)[:60]), "%s:%d" % (f.module.relpath, c.lineno), "np.average normalises by the sum of the weights")
+                    continue
+                if w is None or not (isinstance(P, ast.Name) and _is_point_rows(P.id)):
+                    continue
+                wd = resolved(f.node, w) if isinstance(w, ast.Name) else w
+                if not (isinstance(wd, ast.BinOp) and isinstance(wd.op, ast.Div)):
+                    continue
+                x, D = wd.left, wd.right
+                xd = resolved(f.node, x) if isinstance(x, ast.Name) else x
+                if (isinstance(xd, ast.BinOp) and isinstance(xd.op, ast.Sub)) or any(w_ in u(x).lower() for w_ in ("dir", "normal", "axis")):
+                    continue          # a normalised difference / direction is a unit vector, not a set of weights: its product with a matrix is a projection
+                Dd = resolved(f.node, D) if isinstance(D, ast.Name) else D
+                key = "%s|weights of the mean `%s`" % (f.key, u(c)[:60])
+                where = "%s:%d" % (f.module.relpath, c.lineno)
+                s = _sum_of(Dd)
+                if s is not None and u(s) == u(x):
+                    rep.ok(rule, key, where, "weights `%s` sum to one" % u(wd)[:60])
+                elif isinstance(Dd, ast.Name) and Dd.id in f.params():
+                    rep.unknown(rule, key, where, "the normaliser `%s` is a parameter" % Dd.id)
+                else:
+                    rep.bad(rule, key, where,
+                            "the weights `%s` of the mean `%s` are normalised by `%s`, not by their sum: they do not sum to one, so the result is not the weighted centre of the rows of `%s` "
+                            "but that centre scaled about the coordinate origin (by sum(x) / %s) — e.g. equal potentials on a tetrahedron give 2 x centroid with the Euclidean norm"
+                            % (u(wd)[:60], u(c)[:50], u(Dd)[:40], P.id, u(Dd)[:30]))
